@@ -13,8 +13,20 @@ fn arg(args: &[String], name: &str) -> Option<String> {
 fn main() {
     let args: Vec<String> = std::env::args().collect();
     engine::install_panic_hook();
+    bc_envelope::register_tags();
     if let Some(path) = arg(&args, "--replay") { std::process::exit(replay_file(&path)); }
     if let Some(path) = arg(&args, "--validate") { std::process::exit(validate_file(&path)); }
+    if args.iter().any(|a| a == "--shapes") {
+        use symord::spec::*;
+        for sz in 1..=11 {
+            for (kv, obs) in [(false, false), (true, false), (true, true)] {
+                let v = enumerate(&EnumOpts { max_size: sz, max_assertions: 3, kv, decorated: true, obscured: obs, wrap: true });
+                println!("max_size={} kv={} obscured={} shapes={}", sz, kv, obs, v.len());
+                if sz == 5 && kv && !obs { for s in &v { println!("   {}", s.show()); } }
+            }
+        }
+        return;
+    }
     if args.iter().any(|a| a == "--list") {
         for p in props::all() { for s in &p.scenarios { println!("{} {}{}", p.id, s.name, if s.thorough_only { " (thorough)" } else { "" }); } }
         return;
